@@ -175,7 +175,7 @@ type lut struct {
 	sfs    *simFS
 }
 
-var c19Segs = []string{"a", "b", "d", "t.jet", "u.jet"}
+var c19Segs = []string{"a", "b", "d", "t.jet", "u.jet", "v1..v2", "..x", "x..", ".h"}
 
 func c19Path(t *sim.Tape) string {
 	n := t.Range(1, 3)
